@@ -115,6 +115,41 @@ def takeover_late_partition(rng, base_id):
     return out
 
 
+def takeover_offsetfetch_errors(rng, base_id):
+    """a second member takes the partitions over from a first one that committed part of them, and its FIRST
+    OffsetFetch requests are answered with coordinator errors (NOT_COORDINATOR, LOAD_IN_PROGRESS,
+    COORDINATOR_NOT_AVAILABLE) - in whichever shape the negotiated OffsetFetch version puts them (v0/v1: on every
+    partition with offset -1; v2+: top level).  The new owner has to retry, not fall back on its reset policy."""
+    from simkit import profiles
+    out = []
+    k = 0
+    for prof in ("0.10.0", "0.10.1", "0.10.2", "0.11.0", "2.1", None):
+        for code in (16, 14, 15):
+            for nfail in (1, 3):
+                t1 = 2.0
+                sc = {"id": base_id + k, "seed": rng.randrange(1 << 30), "brokers": 2, "topics": {"t0": 2},
+                      "preload": {"t0": {"0": 30, "1": 30}},
+                      "consumers": [
+                          {"name": "c0", "group": "g", "topics": ["t0"], "assignors": ["range"], "auto_commit": True,
+                           "auto_commit_interval_ms": 100, "cb_delay": 0, "auto_offset_reset": "earliest",
+                           "program": [["sleep", 0], ["start"], ["consume", 1.0, 0.1, 2, 0.05], ["stop"]]},
+                          {"name": "c1", "group": "g", "topics": ["t0"], "assignors": ["range"], "auto_commit": True,
+                           "auto_commit_interval_ms": 100, "cb_delay": 0,
+                           "auto_offset_reset": ["latest", "earliest"][k % 2],
+                           "program": [["sleep", t1], ["start"], ["consume", 4.0, 0.1, None, 0], ["stop"]]}],
+                      "cluster_events": [{"at": t1 + 1.5, "op": "append", "topic": "t0", "p": 1, "n": 2},
+                                         {"at": t1 + 1.5, "op": "append", "topic": "t0", "p": 0, "n": 2}],
+                      "api_faults": [{"client": "c1", "api": "OffsetFetch", "nth": n + 1, "kind": "error", "code": code}
+                                     for n in range(nfail)],
+                      "faults": {"apis": [], "plan": {}}, "coordinator": 0, "max_vtime": 600.0,
+                      "family": "takeover-offsetfetch-errors:" + str(prof)}
+                if prof:
+                    sc["api_ranges"] = profiles.api_ranges(prof)
+                out.append(sc)
+                k += 1
+    return out
+
+
 def run(ck: Check):
     ck.trusted += [
         "Coq 8.16.1 kernel; vm_compute for trace replay and Examples",
@@ -139,6 +174,7 @@ def run(ck: Check):
                 if total and rng.random() < 0.7:
                     c["bad_rids"] = rng.sample(range(total), min(total, rng.choice([1, 2, 3])))
     scs += takeover_late_partition(rng, n)
+    scs += takeover_offsetfetch_errors(random.Random(ck.seed * 7121 + 424), 900000)
     # the application commits by hand (commit() / commit({tp: offset}) / OffsetAndMetadata) after every batch, with and
     # without the auto-commit timer running beside it
     rng_mc = random.Random(ck.seed * 7121 + 414)
